@@ -46,6 +46,10 @@ def seq_case(rng, maxlen):
             else:
                 ops.append(("l",))
         sessions.append(ops)
+    if len(sessions) >= 2 and rng.random() < 0.3:
+        # the LAST instance (a clone) ends in a provided method with a by-value receiver: it is moved into the delegation helper and
+        # dropped when the call returns; the body's required call reports how many lent values are alive at that moment
+        sessions[-1].append(("v",))
     # how each instance finally goes: dropped, dropped while its thread unwinds, or (the original only) verify()
     return {"kind": "seq", "sessions": sessions,
             "unwind": [rng.choice(["drop", "drop", "unwind", "verify"] if j == 0 else ["drop", "drop", "unwind"]) for j in range(len(sessions))]}
@@ -84,6 +88,7 @@ def coq_case(c):
             if o[0] == "l": return "CLive"
             if o[0] in ("t", "p"): return "CTouch"
             if o[0] == "n": return "CNvid"
+            if o[0] == "v": return "CConsume"
             return f"{ {'r': 'CRef', 'm': 'CMut', 'h': 'CHelp'}[o[0]] } {o[1]} {o[2]}"
         return "ChSeq [" + "; ".join("[" + "; ".join(op(o) for o in ops) + "]" for ops in c["sessions"]) + "]"
     return ("ChThreads [" + "; ".join("[" + "; ".join(map(str, v)) + "]" for v in c["vals"]) + "] ["
